@@ -86,14 +86,17 @@ pub fn run(cfg: &Cfg) {
                     for bad in [f64::NAN, next_up(ax[ax.len() - 1]), f64::NEG_INFINITY] {
                         for pos in 0..4 {
                             let mut v = vec![good, ax[0], ax[ax.len() - 1], good];
-                            let all_ok = interp.interp_array(&Array1::from(v.clone())).is_ok()
-                                && interp.interp_array(&Array2::from_shape_vec((2, 2), v.clone()).unwrap()).is_ok()
-                                && interp.interp_array(&ArrayD::from_shape_vec(IxDyn(&[4]), v.clone()).unwrap()).is_ok();
+                            // Some(true) = Ok, Some(false) = Err(OutOfBounds), None = panic
+                            let c1 = |v: &Vec<f64>| std::panic::catch_unwind(std::panic::AssertUnwindSafe(|| interp.interp_array(&Array1::from(v.clone())).is_ok())).ok();
+                            let c2 = |v: &Vec<f64>| std::panic::catch_unwind(std::panic::AssertUnwindSafe(|| interp.interp_array(&Array2::from_shape_vec((2, 2), v.clone()).unwrap()).is_ok())).ok();
+                            let c3 = |v: &Vec<f64>| std::panic::catch_unwind(std::panic::AssertUnwindSafe(|| interp.interp_array(&ArrayD::from_shape_vec(IxDyn(&[4]), v.clone()).unwrap()).is_ok())).ok();
+                            let c4 = |v: &Vec<f64>| std::panic::catch_unwind(std::panic::AssertUnwindSafe(|| interp.interp_array(&ArrayD::from_shape_vec(IxDyn(&[2, 1, 2]), v.clone()).unwrap()).is_ok())).ok();
+                            let all_ok = c1(&v) == Some(true) && c2(&v) == Some(true) && c3(&v) == Some(true);
                             v[pos] = bad;
-                            let e1 = interp.interp_array(&Array1::from(v.clone())).is_err();
-                            let e2 = interp.interp_array(&Array2::from_shape_vec((2, 2), v.clone()).unwrap()).is_err();
-                            let e3 = interp.interp_array(&ArrayD::from_shape_vec(IxDyn(&[4]), v.clone()).unwrap()).is_err();
-                            let e4 = interp.interp_array(&ArrayD::from_shape_vec(IxDyn(&[2, 1, 2]), v.clone()).unwrap()).is_err();
+                            let e1 = c1(&v) == Some(false);
+                            let e2 = c2(&v) == Some(false);
+                            let e3 = c3(&v) == Some(false);
+                            let e4 = c4(&v) == Some(false);
                             rep.evaluations += 7;
                             rep.count("batch-with-one-bad-element");
                             if !(all_ok && e1 && e2 && e3 && e4) {
@@ -142,7 +145,7 @@ pub fn run(cfg: &Cfg) {
                     let vy = vec![midy; 3];
                     let ok = interp.interp_array(&Array1::from(vx.clone()), &Array1::from(vy.clone())).is_ok();
                     vx[pos] = f64::NAN;
-                    let e = interp.interp_array(&Array1::from(vx.clone()), &Array1::from(vy.clone())).is_err();
+                    let e = std::panic::catch_unwind(std::panic::AssertUnwindSafe(|| interp.interp_array(&Array1::from(vx.clone()), &Array1::from(vy.clone())).is_err())).unwrap_or(false);
                     rep.evaluations += 2;
                     if !(ok && e) { rep.fail("2-D batch with one NaN element not rejected as a whole", sc.to_json()); }
                 }
